@@ -37,6 +37,9 @@ type GraphSpec struct {
 	// Names: 0 = s<i> / t<i> / p<i>; 1 = dotted names built from one letter ("n", "n.n", "n.n.n", ...), so that
 	// concatenations of two names with a separator coincide for different pairs.
 	Names int `json:"names,omitempty"`
+	// Quote puts quotation marks into the literal text around parameter references ("%p%", '%p%', `%p%`, and an
+	// unbalanced 5" %p%): quotes in plain text mean nothing to the pattern syntax.
+	Quote bool `json:"quote,omitempty"`
 }
 
 func (g GraphSpec) svc(i int) string {
@@ -68,7 +71,11 @@ func (g GraphSpec) Config() cfg.Config {
 				if n > 0 {
 					text += ":"
 				}
-				text += "%" + g.param(e[1]) + "%"
+				ref := "%" + g.param(e[1]) + "%"
+				if g.Quote {
+					ref = []string{`say "` + ref + `"!`, `'` + ref + `'`, "`" + ref + "`", `5" ` + ref}[(i+n)%4]
+				}
+				text += ref
 				n++
 			}
 		}
@@ -120,7 +127,11 @@ func (g GraphSpec) Config() cfg.Config {
 		}
 		for _, e := range g.SvcParams {
 			if e[0] == i {
-				place(0, "%"+g.param(e[1])+"%")
+				if g.Quote {
+					place(0, `dsn="%`+g.param(e[1])+`%" x`)
+				} else {
+					place(0, "%"+g.param(e[1])+"%")
+				}
 			}
 		}
 		for _, e := range g.SvcTags {
@@ -244,6 +255,7 @@ func RandomGraph(t *rapid.T, maxSvc, maxTag, maxDec, maxParam int, scopes bool) 
 	if !g.Decoys && rapid.IntRange(0, 2).Draw(t, "dotted") == 0 {
 		g.Names = 1
 	}
+	g.Quote = rapid.IntRange(0, 2).Draw(t, "quote") == 0
 	return g
 }
 
